@@ -10,6 +10,8 @@ COPYABLE = {'array', 'list', 'map', 'multimap', 'hashmap', 'hashset'}
 UNIQUE = {'map', 'hashmap', 'hashset', 'poolmap'}
 CAN_ADDALL = {'array', 'list', 'map', 'hashset'}
 CAN_SWAP = {'array', 'list', 'hashmap', 'hashset', 'poollist', 'poolmap'}
+HAS_CAPCTOR = {'array', 'hashmap', 'hashset', 'poolmap'}
+SORTED = {'map', 'multimap'}
 
 
 # ------------------------------------------------------------------------------------------
@@ -77,7 +79,13 @@ def gen_case(rng, kind, nops, alias=0.25, valid=True, mixed=False, collide=False
 
     def new(x):
         k = rng.choice(kinds)
-        ops.append('new %d %s' % (x, k))
+        if (k in HAS_CAPCTOR or not valid) and rng.random() < 0.3:
+            # (capacity) constructors; table kinds: few buckets, so that keys share them
+            ops.append('newcap %d %s %d' % (x, k, rng.choice([0, 1, 2, 3, 5, 8]) if k != 'array' else rng.choice([0, 1, 3, 4, 6, 9])))
+            if k not in HAS_CAPCTOR:
+                return
+        else:
+            ops.append('new %d %s' % (x, k))
         pic.kind[x] = k
         pic.size[x] = 0
 
@@ -99,6 +107,37 @@ def gen_case(rng, kind, nops, alias=0.25, valid=True, mixed=False, collide=False
         y = rng.choice(same) if rng.random() < 0.6 else x
         if not valid and rng.random() < 0.15:
             y = rng.randrange(NV + 1)
+        r3 = rng.random()
+        if r3 < 0.16:
+            # third round: sort, find, hinted insert, in-place construction, append from foreign storage
+            if k == 'list' and r3 < 0.05:
+                ops.append('sort %d' % x)
+                continue
+            if k != 'poollist' and r3 < 0.08:
+                a = (ref(rng, pic, x, alias, True) if k in HAS_KEY else ref(rng, pic, x, alias, False)) or str(pic.key(rng) if k in HAS_KEY else small(rng))
+                ops.append('find %d %s' % (x, a))
+                continue
+            if k in SORTED:
+                p = rng.choice(['f', 'b', str(rng.randrange(n + 1)), str(max(n - 1, 0))])
+                ops.append('inshint %d %s %s %s' % (x, p, ref(rng, pic, x, alias * 1.5, True) or str(small(rng)),
+                                                    ref(rng, pic, x, alias * 1.5, False) or str(small(rng))))
+                pic.size[x] += 1
+                continue
+            if k == 'poollist':
+                m = rng.choice([0, 2, 3, 4, 5, 6, 7, 1, rng.randrange(0, 9)])
+                ops.append('emplace %d %s' % (x, ' '.join(ref(rng, pic, x, 0.5, False) or str(small(rng)) for _ in range(m))))
+                if m <= 7:
+                    pic.size[x] += 1
+                continue
+            if k == 'array' and r3 < 0.12:
+                m = rng.choice([0, 1, 2, (n | 3) - n, (n | 3) - n + 1, rng.randrange(0, 9)])
+                ops.append('appvals %d %s' % (x, ' '.join(str(small(rng)) for _ in range(m))))
+                pic.size[x] += m
+                continue
+            if not valid:
+                ops.append(rng.choice(['sort %d' % x, 'find %d 1' % x, 'inshint %d b 1 1' % x, 'emplace %d 1 2' % x, 'appvals %d 1' % x,
+                                       'find %d k%d.0' % (x, x), 'find %d v%d.0' % (x, x), 'newcap %d %s 3' % (x, k)]))
+                continue
         if r < 0.45:
             ops.append(ins_op(rng, pic, x, alias))
         elif r < 0.57:
@@ -309,6 +348,124 @@ def swap_cases():
     return cases
 
 
+# ------------------------------------------------------------------------------------------
+# third round: sort, hinted insert, in-place construction, capacity constructors
+# ------------------------------------------------------------------------------------------
+def sort_cases(thorough):
+    """List::sort on every payload sequence over {1,2,3} up to length 5 (thorough: {1..4}, length 6:
+    every pattern of ties and orders the partition loop can meet), on sorted / reversed / organ-pipe /
+    all-equal lists around the item-block size, then the list is used on (own element inserted, an
+    element removed, sorted again, copied, assigned to itself, swapped) so that a temporary that was
+    kept alive or an element that was lost shows"""
+    cases = []
+    vals, top = ([1, 2, 3, 4], 6) if thorough else ([1, 2, 3], 5)
+    tails = [['sort 0', 'ins 0 f - v0.0', 'sort 0', 'remat 0 0', 'sort 0'],
+             ['sort 0', 'copy 1 0', 'sort 1', 'asg 0 0', 'addall 0 b 0', 'sort 0'],
+             ['sort 0', 'rempop 0 b', 'ins 0 b - 0', 'sort 0', 'find 0 v0.0', 'clear 0', 'sort 0']]
+    k = 0
+    for n in range(0, top + 1):
+        for seq in itertools.product(vals, repeat=n):
+            k += 1
+            cases.append(['new 0 list'] + ['ins 0 b - %d' % z for z in seq] + tails[k % 3])
+    shapes = []
+    for n in [2, 3, 4, 5, 7, 8, 9, 12, 16] + ([24, 33] if thorough else []):
+        up = list(range(1, n + 1))
+        shapes += [up, up[::-1], up[::2] + up[1::2][::-1], [5] * n, up[n // 2:] + up[:n // 2], [z % 3 for z in up]]
+    for seq in shapes:
+        cases.append(['new 0 list'] + ['ins 0 b - %d' % z for z in seq] +
+                     ['sort 0', 'sort 0', 'new 1 list', 'ins 1 b - 3', 'swap 0 1', 'sort 1', 'sort 0', 'ins 1 f - v1.0', 'sort 1', 'del 1'])
+        cases.append(['new 0 list'] + ['ins 0 f - %d' % z for z in seq] + ['remat 0 0', 'remat 0 0', 'ins 0 b - 2', 'sort 0', 'find 0 2'])
+    return cases
+
+
+def hint_cases(thorough):
+    """Map / MultiMap::insert(position, key, value): every hint position x every key below / at /
+    between / above the stored keys x literal or own-element key and value; trees of 4, 7 (thorough: 15)
+    items so that the hinted item has subtrees; runs of hinted inserts (ascending with hint end(),
+    descending with hint begin(), the previous position as hint); Map::insert(const Map&) with
+    interleaved / contained / containing / the same map"""
+    cases = []
+    for kind in ('map', 'multimap'):
+        for n in [0, 1, 4, 7] + ([15] if thorough else []):
+            keys = [10 * (i + 1) for i in range(n)]
+            if kind == 'multimap' and n >= 4:
+                keys[1] = keys[0]            # a run of equal keys
+                keys[-1] = keys[-2]
+            base = ['new 0 %s' % kind] + ['ins 0 b %d %d' % (z, z + 1) for z in keys]
+            hints = ['f', 'b'] + [str(i) for i in range(n)]
+            probes = sorted({5, 10 * n + 5} | {z + d for z in keys for d in (-5, 0, 5)})
+            for h in hints:
+                for z in probes:
+                    cases.append(base + ['inshint 0 %s %d 7' % (h, z), 'find 0 %d' % z, 'inshint 0 %s %d 8' % (h, z)])
+                if n:
+                    for i in sorted({0, n - 1, n // 2}):
+                        # the key / the value argument is an element of the map itself
+                        cases.append(base + ['inshint 0 %s k0.%d v0.%d' % (h, i, (i + 1) % n), 'inshint 0 %s %d v0.%d' % (h, 10 * i + 15, i),
+                                             'inshint 0 %s k0.%d 3' % (h, i), 'remat 0 0', 'inshint 0 %s k0.0 v0.0' % h])
+        # the usual way to use the hint
+        up = ['inshint 0 b %d %d' % (z, z) for z in range(1, 12)]
+        down = ['inshint 0 f %d %d' % (z, z) for z in range(11, 0, -1)]
+        cases.append(['new 0 %s' % kind] + up + ['rempop 0 f', 'inshint 0 b 12 v0.0', 'clear 0'] + down)
+        cases.append(['new 0 %s' % kind] + down + up[:4] + ['remat 0 3', 'inshint 0 3 4 v0.3'])
+        cases.append(['new 0 %s' % kind] + ['inshint 0 %d %d %d' % (i // 2, (7 * i) % 11, i) for i in range(14)] + ['find 0 7', 'find 0 k0.2'])
+    for a, b in [([1, 3, 5, 7], [2, 4, 6]), ([1, 2, 3], [1, 2, 3]), ([], [1, 2]), ([1, 2], []), ([5], [1, 2, 3, 4, 5, 6, 7, 8, 9]),
+                 ([1, 2, 3, 4, 5, 6, 7, 8, 9], [5]), ([10, 20], [1, 2, 3, 4, 5]), ([1, 2], [10, 11, 12, 13, 14])]:
+        base = (['new 0 map'] + ['ins 0 b %d %d' % (z, 10 * z) for z in a] + ['new 1 map'] + ['ins 1 b %d %d' % (z, 100 * z) for z in b])
+        cases.append(base + ['addall 0 b 1', 'addall 0 b 0', 'addall 1 b 0', 'remat 0 0', 'addall 0 b 1', 'del 1', 'addall 0 b 0'])
+        cases.append(base + ['addall 1 b 1', 'addall 1 b 0', 'clear 0', 'addall 0 b 1', 'inshint 0 b k1.0 v1.0'])
+    return cases
+
+
+def emplace_cases():
+    """PoolList::append(a1..an), n = 0..7 (and 8: not offered), at list sizes around the item-block
+    size and with free slots; the arguments are integers or references to the list's own elements
+    (first / last / the same one several times)"""
+    cases = []
+    for size in [0, 1, 3, 4, 5, 8]:
+        base = ['new 0 poollist'] + fill('poollist', 0, size)
+        for n in range(0, 9):
+            own = ['v0.%d' % i for i in ([0, size - 1, size // 2] if size else [])]
+            args1 = [str(j + 1) for j in range(n)]
+            args2 = [(own[j % len(own)] if own and j % 2 == 0 else str(j)) for j in range(n)]
+            args3 = [(own[0] if own else '9')] * n
+            for args in (args1, args2, args3):
+                cases.append(base + ['emplace 0 ' + ' '.join(args), 'emplace 0 ' + ' '.join(args), 'rempop 0 f',
+                                     'emplace 0 ' + ' '.join(args[::-1]), 'remat 0 0', 'emplace 0'])
+        cases.append(base + ['clear 0', 'emplace 0 1 2', 'emplace 0 v0.0 v0.0', 'new 1 poollist', 'emplace 1 v0.0 v0.1 5', 'swap 0 1',
+                             'emplace 0 v0.0 v1.0', 'emplace 1 v1.0 v0.0 v1.1', 'del 0', 'emplace 1 v1.0'])
+    return cases
+
+
+def capacity_cases(thorough):
+    """the (capacity) constructors: Array(c) then growth to, at and past c with own elements as
+    arguments, copies / assignment / swap of arrays that have a capacity but no storage; HashMap /
+    HashSet / PoolMap(c) with c = 0..3 buckets (every key shares a bucket) through all removing entry
+    points, swapped with a default-constructed one"""
+    cases = []
+    for c in range(0, 10 if thorough else 8):
+        a = 'newcap 0 array %d' % c
+        cases.append([a, 'copy 1 0', 'asg 1 0', 'asg 0 1', 'swap 0 1', 'ins 1 b - 1', 'swap 0 1', 'ins 1 b - v0.0', 'asg 1 1', 'del 0'])
+        cases.append([a] + ['ins 0 b - %d' % z for z in range(c + 2)] + ['ins 0 b - v0.0', 'find 0 v0.1', 'rematit 0 0'])
+        cases.append([a, 'resize 0 %d 7' % c, 'resize 0 %d v0.0' % (c + 1) if c else 'resize 0 1 7', 'apprange 0 0 0 %d' % max(c, 1)])
+        cases.append([a, 'reserve 0 %d' % max(c - 1, 0), 'appvals 0 ' + ' '.join(str(z) for z in range(c)), 'appvals 0 8 9', 'apprange 0 0 1 1'])
+        cases.append([a, 'appvals 0 ' + ' '.join(str(z) for z in range(c + 1)), 'new 1 array', 'addall 1 b 0', 'addall 0 b 0', 'clear 0',
+                      'appvals 0 1', 'newcap 2 array %d' % (c + 3), 'addall 2 b 0', 'apprange 2 0 0 1', 'swap 2 1'])
+        cases.append([a, 'clear 0', 'remat 0 0', 'find 0 1', 'addall 0 b 0', 'apprange 0 0 0 0', 'appvals 0', 'asg 0 0', 'del 0', a, 'ins 0 b - 1'])
+    for kind in TABLE:
+        va = (lambda z: str(z % 97)) if kind in NEED_VAL else (lambda z: '-')
+        ins = lambda x, z, p='b': 'ins %d %s %d %s' % (x, p, z, va(z))
+        for c in [0, 1, 2, 3] + ([7, 500] if thorough else []):
+            base = ['newcap 0 %s %d' % (kind, c)] + [ins(0, z) for z in (1, 2, 3)] + [ins(0, 4, 'f')]
+            for how in ['remat 0 0', 'remat 0 3', 'remat 0 1', 'remkey 0 2', 'remkey 0 k0.2', 'rempop 0 f', 'rempop 0 b']:
+                cases.append(base + [how, 'find 0 2', 'find 0 3', ins(0, 2), ins(0, 5), 'remkey 0 3', 'remkey 0 1', 'find 0 k0.0', 'clear 0', ins(0, 1)])
+            cases.append(base + ['new 1 %s' % kind, ins(1, 501), ins(1, 1), 'swap 0 1', ins(0, 1001), ins(1, 5), ins(1, 1), 'remkey 0 501',
+                                 'remkey 1 2', 'find 1 4', 'swap 1 0', ins(0, 6), 'remkey 1 1', 'del 0', ins(1, 7)])
+            if kind in COPYABLE:
+                cases.append(base + ['copy 1 0', 'asg 0 0', 'remkey 1 3', 'asg 0 1', 'newcap 2 %s %d' % (kind, c + 1), 'asg 2 0', 'asg 0 2', 'find 2 4'] +
+                             (['addall 2 b 0', 'remall 2 2', 'addall 2 b 1', 'remall 2 0'] if kind == 'hashset' else []))
+    return cases
+
+
 def exhaustive_cases(kind, depth):
     """all histories of `depth` operations over a small alphabet on two variables"""
     ka = lambda z: str(z) if kind in HAS_KEY else '-'
@@ -328,6 +485,17 @@ def exhaustive_cases(kind, depth):
         alpha += ['remall 0 0', 'remall 0 1']
     if kind not in COPYABLE:
         alpha += ['new 1 %s' % kind, 'ins 1 b %s %s' % (ka(3), va(7)), 'del 1']
+    # third round
+    if kind == 'list':
+        alpha += ['sort 0', 'ins 0 f - 3']
+    if kind in SORTED:
+        alpha += ['inshint 0 b 0 7', 'inshint 0 f k0.0 v0.0', 'inshint 0 1 1 8']
+    if kind == 'poollist':
+        alpha += ['emplace 0', 'emplace 0 v0.0 2 v0.0']
+    if kind == 'array':
+        alpha += ['appvals 0 7 8', 'newcap 1 array 2']
+    if kind in TABLE:
+        alpha += ['newcap 1 %s 1' % kind, 'find 0 %s' % ka(k2)]
     cases = []
     for seq in itertools.product(alpha, repeat=depth):
         cases.append(['new 0 %s' % kind] + list(seq))
@@ -341,6 +509,8 @@ def kind_of_var(case, upto, x):
     for l in case[:upto]:
         t = l.split()
         if t[0] == 'new' and len(t) == 3 and t[1] not in kinds:
+            kinds[t[1]] = t[2]
+        elif t[0] == 'newcap' and len(t) == 4 and t[1] not in kinds and t[2] in HAS_CAPCTOR:
             kinds[t[1]] = t[2]
         elif t[0] == 'copy' and len(t) == 3 and t[1] not in kinds and t[2] in kinds:
             kinds[t[1]] = kinds[t[2]]
@@ -419,7 +589,17 @@ class C04(Check):
         'no_leak_no_sharing; alias_args_as_if_copied / alias_step / '
         'dealias_is_copy_first: a history with self / own-element / own-storage-pointer arguments has the same contents as its de-aliased '
         'history (element '
-        'reference replaced by its value, container argument by an explicit copy). The model is tied to the code by running the extracted '
+        'reference replaced by its value, container argument by an explicit copy). Third round - the op language of all these theorems '
+        'now also contains the (capacity) constructors, find, PoolList::append(a1..an) with 0..7 constructor arguments (in-place '
+        'construction, event EMake, arguments may be references to the list\'s own elements), Array::append(const T*, n) from elements '
+        'outside every container, Map/MultiMap::insert(position, key, value) transcribed decision by decision (incl. the branch that '
+        'ASSIGNS to the hinted element), Map::insert(const Map&) through that hinted insert (also with itself) and List::sort - the '
+        'in-place quicksort of the code as it is now, on the sequence of items of a segment, exchanging payloads by copy-construct / '
+        'assign / assign / destroy. sort_moves_payloads_only: in every reachable state sort succeeds, the variables hold the very same '
+        'instances afterwards, the set of live instances is unchanged and the content is the sorted permutation of the old one '
+        '(quicksort correctness is proved, with fuel = length); hinted_insert_is_plain_insert: on a reachable state the hinted insert is '
+        'the same computation (same events, same result) as insert(key, value), whatever the hint; find_refines_spec: find returns the '
+        'first element with that key / value. The model is tied to the code by running the extracted '
         'model, the extracted spec and an ASan/UBSan build of the working tree on the same histories with an element type that owns a heap '
         'cell and registers every construction, copy, assignment and destruction: contents, number of live instances, the ordered event '
         'list of every operation (instance ids, allocation serials from ASan\'s malloc hooks), capacity() and free-list lengths are compared '
@@ -435,28 +615,53 @@ class C04(Check):
         'implementation facts that the property text does not fix - the number of instances in the embedded end item and the fields per item; '
         'they are defined next to the model (LifeModel.v), not in the spec. One model function serves several entry points of the code: '
         'Array::remove(index) / remove(const Iterator&) / removeFront / removeBack, and remove(iterator) / removeFront / removeBack of the '
-        'node containers (ops remat, rematit, rempop; all driven). Entry points NOT driven and not modelled: Array(capacity), '
-        'HashMap/HashSet/PoolMap(capacity), List::sort, find, hinted Map/MultiMap insert(position, key, value), PoolList::append() without and '
-        'with 2..7 arguments, iterators returned by the calls.')
+        'node containers (ops remat, rematit, rempop; all driven). Third round: HashMap/HashSet/PoolMap(capacity) are modelled as the default '
+        'constructor (the number of buckets is not part of the model; the streams use 0..3 buckets so that every chain operation meets '
+        'collisions). Hinted insert: the model states WHERE insert(&cell, parent, ..) started at a child cell of the hinted item links the '
+        'new item (immediately before / behind it) - this rests on the search-tree invariants of C01/C02 and is checked differentially; the '
+        'one call whose result depends on the tree shape (MultiMap, key of the hinted item <= key and key of the item behind it == key: the '
+        'new item lands somewhere inside the following run of equal keys) is excluded by the spec (hint_tie), by the model and by the harness '
+        'and is NOT driven. Map::insert(const Map&): the hint (the iterator returned by the previous insertion) is found again in the model '
+        'by looking up the previous key. find: modelled as liveness-checked reads of the argument and of all keys (the code stops at the '
+        'match; tree / bucket navigation not modelled); the returned iterator is compared as the index of the element found. '
+        'PoolList::append(a1..an): driven with arguments of one POD type (an integer or a pointer to a stored element) that the element '
+        'type\'s n-ary constructors read in order; by-value class-type arguments of arity >= 2 (copies made by the caller in an order the '
+        'language leaves open) are not driven. List::sort is driven on lists of up to 16 (thorough: 33) elements. Still not '
+        'driven / not modelled: iterators returned by the mutating calls, MultiMap::count, contains (= find), operator== / != of the '
+        'containers, Array::operator T*, front() / back() other than through the element references the ops take.')
     rule = (
         'cases = histories over 3 container variables of one kind (new / del / copy-construct / assign / swap / clear / insert with value or '
         'own-element references / remove at index or iterator / Array::remove(Iterator) / removeFront / removeBack / remove key / add-all / '
-        'remove-all / reserve / resize / Array::append(pointer into an array - mostly its own -, n)). Streams: corpus witnesses; random '
+        'remove-all / reserve / resize / Array::append(pointer into an array - mostly its own -, n) / (capacity) constructors / find / sort / '
+        'hinted insert / PoolList::append(a1..an) / Array::append(foreign buffer, n)). Streams: corpus witnesses; random '
         'mostly-valid histories per kind with 25% element-reference arguments and 40% self arguments; a malformed stream (dead variables, '
         'out-of-range indices and ranges, wrong-typed references, mixed kinds); random histories of the hash-table kinds with keys that share '
         'buckets (1, 501, 1001, 1501 / 2, 502 at 500 buckets); a collision stream (every insertion order of 3 (thorough: 4) colliding keys, '
         'front/back insertion, one removed through each removing entry point, then looked up / removed again / re-inserted / another '
         'colliding key inserted); a swap stream (both sides hold spare item slots, then both sides grow and shrink); an Array boundary stream '
         '(append(a[i]), resize(m, a[i]), append(a), append(&a[i], m), remove(iterator) at and away from capacity n|3 for every size 0..8, '
-        'with/without reserve); a self-argument stream per kind at sizes around the item-block size; exhaustive histories of depth 3 '
-        '(thorough: depth 4) for every kind over a 11-18 op alphabet (table kinds: the two keys collide). A case is non-trivial when the '
+        'with/without reserve); a self-argument stream per kind at sizes around the item-block size; a sort stream (every payload sequence '
+        'over {1,2,3} up to length 5 (thorough: {1..4}, length 6), sorted / reversed / organ-pipe / all-equal / rotated lists of 2..16 '
+        '(thorough: ..33) elements, each followed by uses of the list: own element inserted, removal, second sort, copy, self-assignment, '
+        'self-append, swap); a hint stream (Map and MultiMap of 0/1/4/7 (thorough: 15) items: every hint position x every key below / at / '
+        'between / above the stored keys, own keys and values as arguments, ascending runs with hint end(), descending with begin(), '
+        'Map::insert(Map) with interleaved / contained / containing / the same map); an emplace stream (PoolList::append with 0..8 '
+        'arguments, integers or own elements, at sizes around the item-block size and with free slots); a capacity stream (Array(c), '
+        'c = 0..7, grown to / at / past c with own elements, copied / assigned / swapped while it has no storage; table kinds with 0..3 '
+        'buckets through every removing entry point, swapped with default-constructed ones); exhaustive histories of depth 3 '
+        '(thorough: depth 4) for every kind over a 13-20 op alphabet (table kinds: the two keys collide; the third-round ops are in the '
+        'alphabets). A case is non-trivial when the '
         'implementation performed at least 4 operations and constructed at least 3 element instances; distinct = distinct op text.')
     assumptions = ['element type: copy constructor / assignment read the source before writing, destructor releases the owned cell '
                    '(harness type Tr); payloads are ints; hash(key) = payload',
                    'the harness passes value arguments as temporaries constructed before and destroyed after the call (key first); element '
                    'references are passed as `const T&` bound to the stored instance, except PoolList::append(v), where template deduction '
                    'makes the parameter a by-value copy (modelled: copy before, destroy after the call)',
-                   'Array::append(const T*, n) is driven with pointers into live arrays only (its own or another array, i + n <= size)']
+                   'Array::append(const T*, n) is driven with pointers into live arrays (its own or another array, i + n <= size) and with a '
+                   'buffer of n live elements that the harness constructs before and destroys (in reverse order) after the call',
+                   'PoolList::append(a1..an): the element type has constructors T(Src, ..., Src) for 1..7 arguments, Src = {pointer to an '
+                   'element or 0, int}; they read their arguments in order and store the sum',
+                   'List::sort: the element type\'s operator< reads both operands (liveness-checked, not logged)']
 
     def nontrivial(self, case, obs):
         oks = sum(1 for l in obs if l.startswith('ok'))
@@ -513,6 +718,10 @@ class C04(Check):
         out.append(Stream('swap', swap_cases(), note='swap with spare item slots on both sides, then growth on both sides'))
         out.append(Stream('boundary', boundary_cases(thorough), note='Array growth boundary with own elements'))
         out.append(Stream('selfarg', selfarg_cases(thorough), note='self-assignment, copies of copies, container as its own argument'))
+        out.append(Stream('sort', sort_cases(thorough), note='List::sort on all short payload sequences and on sorted / reversed / equal lists, then the list is used on'))
+        out.append(Stream('hint', hint_cases(thorough), note='Map / MultiMap insert(position, k, v): every hint x every key position, own elements as arguments; Map::insert(Map)'))
+        out.append(Stream('emplace', emplace_cases(), note='PoolList::append with 0..8 arguments, integers or references to own elements'))
+        out.append(Stream('capacity', capacity_cases(thorough), note='(capacity) constructors of Array / HashMap / HashSet / PoolMap'))
         if thorough:
             for k in KINDS:
                 out.append(Stream('exh4-' + k, exhaustive_cases(k, 4), exhaustive=False, note='all depth-4 histories over the alphabet'))
